@@ -249,8 +249,9 @@ func getRig(t vh.TB) *rig {
 		}
 		return true
 	})
-	closed := vh.FreePort()
-	r.fp2, r.agent2 = mk(fmt.Sprintf("127.0.0.1:%d", closed))
+	// a backend address that refuses connections for good: port 1 (a free port picked now could be taken by another
+	// process later, and that process would answer in the backend's place)
+	r.fp2, r.agent2 = mk("127.0.0.1:1")
 	// warm-up of the first agent
 	q := r.fp.Submit("warmup", "", "GET", []byte("GET /warmup HTTP/1.1\r\nHost: x\r\n\r\n"))
 	if q.Wait(30*time.Second) == nil {
